@@ -541,7 +541,11 @@ fn my_mir_built<'tcx>(tcx: TyCtxt<'tcx>, def: LocalDefId) -> &'tcx Steal<Body<'t
         return res;
     }
     let kind = tcx.def_kind(def);
-    if !matches!(kind, DefKind::Fn | DefKind::AssocFn | DefKind::Closure) {
+    // generic constants (`const INDEX_MASK: usize = BUFFER_SIZE - 1` in an impl with const generics) cannot be evaluated polymorphically:
+    // their bodies are emitted (kind Const / AssocConst) so that the rules can read the defining expression
+    let generic_const = matches!(kind, DefKind::Const { .. } | DefKind::AssocConst { .. })
+        && tcx.generics_of(def.to_def_id()).requires_monomorphization(tcx);
+    if !matches!(kind, DefKind::Fn | DefKind::AssocFn | DefKind::Closure) && !generic_const {
         return res;
     }
     let body = res.borrow();
